@@ -648,6 +648,15 @@ def o_tower_shift(case):
     base = dict(base_of(case), halo=0.0, footprint=True)
     ny, nx = base["q"].shape
     dx, dy = base["domain"][0] / nx, base["domain"][1] / ny
+    ps = par.get("prelude_scale")
+    if ps:
+        # the same request on a domain of another extent, with the SAME measurement points in metres, solved just before:
+        # nothing it leaves behind (a phase table keyed on metres, a workspace keyed on shapes) may reach the solves below
+        for pt in ((im * dx, jm * dy), ((im + cx) * dx, (jm + cy) * dy)):
+            try:
+                solve3(dict(base, domain=(base["domain"][0] * ps, base["domain"][1] * ps), meas_pt=pt))
+            except Exception:  # noqa: BLE001
+                pass
     a = solve3(dict(base, meas_pt=(im * dx, jm * dy)))
     b = solve3(dict(base, meas_pt=((im + cx) * dx, (jm + cy) * dy)))
     tol = 1e-10 if base["precision"] == "double" else 3e-5
@@ -677,6 +686,11 @@ def o_recentre(case):
     base = dict(base_of(case), footprint=False)
     ny, nx = base["q"].shape
     dx, dy = base["domain"][0] / nx, base["domain"][1] / ny
+    if par.get("prelude_scale"):
+        try:
+            solve3(dict(base, domain=(base["domain"][0] * par["prelude_scale"], base["domain"][1] * par["prelude_scale"]), meas_pt=(im * dx, jm * dy)))
+        except Exception:  # noqa: BLE001
+            pass
     a = solve3(dict(base, meas_pt=(0.0, 0.0)))
     pt = (im * dx, jm * dy)
     image = par.get("image")
@@ -757,6 +771,8 @@ def run_C06(rng, tier, deep):
         ny, nx = c["q"].shape
         im, jm, _ = ongrid_point(rng, c)
         c["par"] = dict(cy=int(rng.integers(-ny, 2 * ny)), cx=int(rng.integers(-nx, 2 * nx)), im=im, jm=jm)
+        if rng.random() < 0.3:
+            c["par"]["prelude_scale"] = float(rng.choice([0.5, 2.0, 1.25]))
         run_oracle(st, o_source_shift, c)
         run_oracle(st, o_tower_shift, c)
         c2 = even_case(rng)
@@ -764,6 +780,8 @@ def run_C06(rng, tier, deep):
         if rng.random() < 0.15:
             im, jm = 0, 0
         c2["par"] = dict(im=im, jm=jm)
+        if rng.random() < 0.3:
+            c2["par"]["prelude_scale"] = float(rng.choice([0.5, 2.0]))
         if rng.random() < 0.4:
             c2["halo"] = 0.0
         if rng.random() < 0.2:
@@ -777,7 +795,7 @@ def run_C06(rng, tier, deep):
         c3["par"] = dict(k=int(rng.integers(-nx3, nx3 + 1)), m=int(rng.integers(-ny3, ny3 + 1)))
         run_oracle(st, o_recentre_any, c3)
     return finish(st, "random requests with on-grid towers; oracles: np.roll of the source / of the tower position (incl. wrap-around, shifts in [-n, 2n)), "
-                  "point reflection against a unit-source dispersion run, re-centring value and full periodic roll (halo=0), measurement points that are exact periodic images of the origin", deep, TOL)
+                  "point reflection against a unit-source dispersion run, re-centring value and full periodic roll (halo=0), measurement points that are exact periodic images of the origin, the same points in metres solved on a domain of another extent just before", deep, TOL)
 
 
 # ------------------------------------------------------------ C07 symmetries
